@@ -26,8 +26,8 @@ RULE = (
 )
 EXPLANATION = (
     "Properties/C13.lean: fault_contained holds for every verb, shape and call index of the program model built from "
-    "the regenerated decorator stacks; fault_closes_data_partial excludes exactly the failing open of a file transfer "
-    "(negative witness proved, finding F6).  This run ties the program model to the code (call sequences and outcomes)."
+    "the regenerated decorator stacks and `async with` item order; fault_closes_data holds for every failing call, the open "
+    "of a file transfer included (finding F6 repaired in /repo a864f95; context_order_matters shows the old order fails).  This run ties the program model to the code (call sequences and outcomes)."
 )
 ASSUMPTIONS = ["a backend failure is an exception raised inside the backend method (becomes PathIOError)", "faults are injected on MemoryPathIO and PathIO through the spying subclass"]
 
